@@ -89,10 +89,27 @@ def build_pool() -> List[PoolVal]:
     add("s_tz", "strtz", lambda: S("America/New_York"), "'America/New_York'")
     add("s_tzoff", "strtz", lambda: S("-08:00"), "'-08:00'")
     add("s_tzbad", "str", lambda: S("Mars/Olympus"), "'Mars/Olympus'")
+    # strings whose VALUE (not kind) selects the behaviour of a primitive: Python %-format strings (`str % x` is
+    # formatting: KeyError / ValueError / OverflowError / TypeError by format), numeric texts at the edges of
+    # int()/float(), regular expressions re2 rejects (round 2: D46 — "behaviour depends on the kind only" was false)
+    add("s_fmtkey", "strfmt", lambda: S("%(a)s"), "'%(a)s'")
+    add("s_fmts", "strfmt", lambda: S("%s"), "'%s'")
+    add("s_fmtd", "strfmt", lambda: S("%d"), "'%d'")
+    add("s_fmtc", "strfmt", lambda: S("%c"), "'%c'")
+    add("s_fmtstar", "strfmt", lambda: S("%*d"), "'%*d'")
+    add("s_fmtpct", "strfmt", lambda: S("%"), "'%'")
+    add("s_1e400", "strnumx", lambda: S("1e400"), "'1e400'")
+    add("s_nan", "strnumx", lambda: S("nan"), "'nan'")
+    add("s_arabic", "strnumx", lambda: S("\u0661\u0662"), "'\u0661\u0662'")
+    add("s_rebig", "strre", lambda: S("a{1000000}"), "'a{1000000}'")
+    add("s_regrp", "strre", lambda: S("(?P<n"), "'(?P<n'")
     # bytes
     add("b_empty", "bytes0", lambda: B(b""), "b''")
     add("b_a", "bytes", lambda: B(b"abc"), "b'abc'")
     add("b_ff", "bytesbad", lambda: B(b"\xff\xfe"), "b'\\xff\\xfe'")
+    add("b_fmts", "bytesfmt", lambda: B(b"%s"), "b'%s'")
+    add("b_fmtkey", "bytesfmt", lambda: B(b"%(a)s"), "b'%(a)s'")
+    add("b_fmtc", "bytesfmt", lambda: B(b"%c"), "b'%c'")
     # list
     add("l_empty", "list0", lambda: L([]), "[]")
     add("l_1", "list", lambda: L([I(1)]), "[1]")
@@ -109,6 +126,10 @@ def build_pool() -> List[PoolVal]:
     add("m_nested", "map", lambda: M({S("a"): M({S("b"): I(1)})}), "{'a': {'b': 1}}")
     add("m_bool", "map", lambda: M({ct.BoolType(True): I(1)}), "{true: 1}")
     add("m_mixed", "map", lambda: M({S("a"): I(1), S("b"): S("x")}), "{'a': 1, 'b': 'x'}")
+    # keys of different CEL types in one map (legal; the keys are not mutually comparable: sorting / min over them raises)
+    add("m_mixk", "mapmixed", lambda: M({I(1): I(2), S("a"): I(3)}), "{1: 2, 'a': 3}")
+    add("m_mixu", "mapmixed", lambda: M({U(2): I(2), S("b"): I(3)}), "{2u: 2, 'b': 3}")
+    add("m_mixb", "mapmixed", lambda: M({ct.BoolType(True): I(1), S("c"): I(2), I(0): I(3)}), "{true: 1, 'c': 2, 0: 3}")
     # null
     add("null", "null", lambda: None, "null")
     # timestamp / duration
